@@ -137,6 +137,8 @@ def run(job, ctx):
         forms.append(('negative', '-' + str(ip), Decimal(-ip)))
         if ip >= 1000:
             forms.append(('negative grouped', '-' + group(str(ip), th), Decimal(-ip)))
+            forms.append(('negative spaced grouped', '- ' + group(str(ip), th), Decimal(-ip)))
+        forms.append(('negative spaced', '- ' + str(ip), Decimal(-ip)))
         for form, s, val in forms:
             cars = ['{}'] + ([CARRIER[cu]] if cu in CARRIER else [])
             for car in cars:
